@@ -420,10 +420,19 @@ fn mdl(_seed: u64) -> W {
         w.mark_at(&format!("index_buffer_size[{i}]"), 52 + 4 * i, 4);
     }
     w.mark_at("lod_count", 64, 1);
-    w.mark_at("decl[0].elem[0].stream", 0x44, 1);
-    w.mark_at("decl[0].elem[0].vertex_type", 0x46, 1);
-    w.mark_at("decl[0].elem[0].vertex_usage", 0x47, 1);
-    w.mark_at("decl[0].elem[1].stream", 0x4C, 1);
+    // vertex elements are 8 bytes: stream, offset, type, usage, usage index, 3 unused
+    for e in 0..17 {
+        let o = 0x44 + 8 * e;
+        if w.b[o] == 0xFF {
+            w.mark_at(&format!("decl[0].elem[{e}].end_marker"), o, 1);
+            break;
+        }
+        w.mark_at(&format!("decl[0].elem[{e}].stream"), o, 1);
+        w.mark_at(&format!("decl[0].elem[{e}].offset"), o + 1, 1);
+        w.mark_at(&format!("decl[0].elem[{e}].vertex_type"), o + 2, 1);
+        w.mark_at(&format!("decl[0].elem[{e}].vertex_usage"), o + 3, 1);
+        w.mark_at(&format!("decl[0].elem[{e}].usage_index"), o + 4, 1);
+    }
     let base = 0x44 + rd16(&w.b, 12) * 17 * 8;
     w.mark_at("string_count", base, 2);
     w.mark_at("string_size", base + 4, 4);
